@@ -983,16 +983,20 @@ func shapedSeq[V any](r *rng, present []V, stranger func() V, L int) []V {
 			out[L-1] = stranger()
 		}
 	}
-	switch r.intn(6) {
+	where := func() int { return []int{0, 0, 1, 1, 2}[r.intn(5)] } // front and middle more often than the end
+	switch r.intn(8) {
 	case 0: // the control: exactly the values, in a drawn order
 	case 1, 2: // repeats only
 		dup()
 		if r.chance(1, 3) {
 			dup()
 		}
-	case 3, 4: // one stranger at the front, in the middle or at the end
-		strangerAt(r.intn(3))
-		if r.chance(1, 3) {
+	case 3, 4, 5: // one or two strangers: at the front, in the middle, at the end
+		strangerAt(where())
+		if r.chance(1, 2) {
+			strangerAt(where())
+		}
+		if r.chance(1, 4) {
 			dup()
 		}
 	default:
@@ -1435,6 +1439,15 @@ func (a *assocRunner[V]) macroBulkKeys() bool {
 		return false
 	}
 	i := cands[r.intn(len(cands))]
+	// a collection of fewer than three associations is grown first (the shapes need a front, a middle and an end)
+	for k := 0; k < 3 && a.assocSeq(i).GetSize() < 3 && !s.hung && r.chance(4, 5); k++ {
+		s.hintFreshKey = true
+		s.do("ASet", i)
+		s.hintFreshKey = false
+	}
+	if s.hung {
+		return true
+	}
 	present := a.keysOf(i)
 	n := len(present)
 	absent := func() V {
